@@ -14,7 +14,8 @@ from vf.model import edits as E
 from vf.model import pathsem as PS
 from yamlpath.exceptions import UnmatchedYAMLPathException, NoDocumentYAMLPathException
 
-VALUES = [9, 0, 1, -3, 2.5, 2.0, 100.0, -7.0, 1e-3, True, False, None, "zz", "new value", "", "a", "b", "x y"]
+VALUES = [9, 0, 1, -3, 2.5, 2.0, 100.0, -7.0, 1e-3, True, False, None, "zz", "new value", "", "a", "b", "x y",
+          1e-16, -2.5e-17, 0.000123456789012345, 1.0 / 3, 1.2345678901234567e+20, 123456789.123456789]      # floats that 15 decimals cannot hold
 
 
 def where(exc):
